@@ -2,6 +2,7 @@
 turns counter-models into concrete arguments and replays them on the real code."""
 from __future__ import annotations
 
+import ast
 import copy
 import importlib
 import json
@@ -12,6 +13,7 @@ from typing import Dict, List, Optional
 
 import z3
 
+from .ghost import SymbolicOnly
 from .interp import Interp, PyRaise, Infeasible, Obligation, zbool, simp, CutReached
 from .values import Unsupported, SObj, SStr, SSet
 from .contract import ContractInfo, SymFactory, ConcreteFactory, Registry
@@ -159,7 +161,13 @@ def run_one(I: Interp, reg: Registry, ci: ContractInfo, f, known_excludes=()):
     if cut:
         I.cut_text, I.havoc_loops = cut, True
     try:
-        if ci.kind == 'function':
+        if ci.kind == 'function' and getattr(ci.pycls, 'step', None):
+            # a loop-step contract: one iteration of the named loop from the state the contract's inputs describe
+            flow, result, env = I.run_step(f, ci.pycls.step, call_kwargs)
+            vals = dict(vals)
+            vals.update(env.vars)
+            vals['flow'] = flow
+        elif ci.kind == 'function':
             try:
                 result = I.call_function(f, [], call_kwargs)
             except CutReached as c:
@@ -402,7 +410,58 @@ def deep_state(v, memo=None, depth=0):
     return repr(type(v))
 
 
+def native_step(ci: ContractInfo, vals: dict):
+    """Native counterpart of Interp.run_step: the body of the named loop, taken from the real source of the target function on every
+    call, is compiled into a function of the names in `vals` and run once; `vals` is updated with the locals afterwards."""
+    import inspect
+    import textwrap
+    owner, name, obj = resolve_target(ci.target)
+    fn = obj
+    raw = inspect.getattr_static(owner, name) if owner is not None else obj
+    if isinstance(raw, (classmethod, staticmethod)):
+        fn = raw.__func__
+    fn = getattr(fn, '__func__', fn)
+    fn = inspect.unwrap(fn)
+    tree = ast.parse(textwrap.dedent(inspect.getsource(fn)))
+    loop = None
+    for n in ast.walk(tree):
+        if isinstance(n, (ast.For, ast.While)) and ast.unparse(n).split('\n')[0].rstrip(':').strip() == ci.pycls.step:
+            loop = n
+            break
+    if loop is None:
+        raise RuntimeError(f'loop {ci.pycls.step!r} not found in {ci.target}')
+
+    class Ret(ast.NodeTransformer):
+        def visit_FunctionDef(self, node):
+            return node
+
+        def visit_Lambda(self, node):
+            return node
+
+        def visit_Return(self, node):
+            val = node.value if node.value is not None else ast.Constant(None)
+            return ast.copy_location(ast.Return(ast.Tuple([ast.Constant('return'), val, ast.Call(ast.Name('locals', ast.Load()), [], [])], ast.Load())), node)
+    body = [Ret().visit(st) for st in loop.body]
+    names = [k for k in vals if not k.startswith('_') and k.isidentifier()]
+    end = lambda flow: ast.Return(ast.Tuple([ast.Constant(flow), ast.Constant(None), ast.Call(ast.Name('locals', ast.Load()), [], [])], ast.Load()))
+    wrapper = ast.For(target=ast.Name('__once__', ast.Store()), iter=ast.Tuple([ast.Constant(0)], ast.Load()), body=body, orelse=[end('next')])
+    fdef = ast.FunctionDef(name='__step__', args=ast.arguments(posonlyargs=[], args=[ast.arg(k) for k in names], kwonlyargs=[], kw_defaults=[], defaults=[]),
+                           body=[wrapper, end('break')], decorator_list=[], type_params=[])
+    mod = ast.Module([fdef], [])
+    ast.fix_missing_locations(mod)
+    glb = dict(fn.__globals__)
+    exec(compile(mod, f'<step of {ci.target}>', 'exec'), glb)
+    flow, value, loc = glb['__step__'](**{k: vals[k] for k in names})
+    for k, v in loc.items():
+        if k != '__once__':
+            vals[k] = v
+    vals['flow'] = flow
+    return value
+
+
 def call_real(ci: ContractInfo, vals: dict):
+    if getattr(ci.pycls, 'step', None):
+        return native_step(ci, vals)
     owner, name, obj = resolve_target(ci.target)
     kwargs = {k: v for k, v in vals.items() if not k.startswith('_')}
     if name == 'setter':
@@ -517,10 +576,18 @@ def _replay(ci: ContractInfo, ob_kind: str, ob_label: str, model: dict):
         base = ob_label.split('#')[0]
         if ob_kind == 'post':
             if exc is not None:
+                if type(exc).__name__ not in table:
+                    # the witness of the failed clause makes the real code raise an exception the contract does not allow at all:
+                    # a violation of the same contract on a concrete input
+                    info.update(confirmed=True, clause=f'no uncaught {type(exc).__name__} (the real code raised on the witness of post_{base})')
+                    return info
                 info.update(confirmed=None, reason='real code raised, post clause not applicable')
                 return info
             try:
                 ok = _call_native(ci, 'post_' + base, values)
+            except SymbolicOnly as e:
+                info.update(confirmed=None, reason=f'the clause reads ghost state of the symbolic run ({e}): no native replay')
+                return info
             except Exception as e:
                 # the clause itself raised on the real result (e.g. it reads a field of a token that is not there): it does not hold
                 ok = False
@@ -595,6 +662,8 @@ def native_check(ci: ContractInfo, g: ConcreteFactory):
         for name in ci.clauses:
             try:
                 ok = _call_native(ci, name, values)
+            except SymbolicOnly:
+                ok = True       # a clause over ghost state of the symbolic run: not evaluable natively, no verdict
             except Exception as e:
                 ok = False
             if not ok:
@@ -624,7 +693,8 @@ def bounded_search(ci: ContractInfo, kind: str, label: str, n: int, rng):
             continue
         if not failed:
             continue
-        hit = [f for f in failed if f == f'{kind}:{base}' or (kind == 'frame' and f.startswith('frame:'))]
+        hit = [f for f in failed if f == f'{kind}:{base}' or (kind == 'frame' and f.startswith('frame:'))
+               or (kind == 'post' and f.startswith('safe:'))]       # (an input on which the real code raises instead of returning)
         if hit:
             info = replay(ci, kind, label, g.used)
             if info.get('confirmed'):
